@@ -10,6 +10,20 @@ COMMON_NOTE = ('Trusted: Coq 8.16.1 kernel, the hand-written Gallina model, Extr
 
 # id -> (technique, level text, level note, design ref)
 CLAIMED = {
+ 'C01': ('Coq proof (counting kernel = in-trajectory pair counts, constructor branches = rank, entry formula in Qc) + differential correspondence, bit-exact',
+         'proof: the nested counting loop equals the table of frame pairs (k,k+lag) inside single trajectories, the three label->index '
+         'branches all produce the rank in the ascending distinct labels, and T[i,j] = C_ij/sum_k C_ik with zero rows, entries in [0,1], row sums 0/1 '
+         'are Coq theorems about the model for every trajectory set and lag; the implementation (function and method, JIT on/off, all dtypes and '
+         'container forms) is compared bit-exactly with float(C_ij/S_i) of the extracted model.',
+         COMMON_NOTE + 'IEEE division trusted; numba typed-list conversion exercised, not modelled.',
+         'DESIGN.md section 6 C01'),
+ 'C05': ('Coq proof (in-place loop = suffix-recursive reference rule; run-length, shortcut soundness, iterative = successive, idempotence) + differential correspondence, exhaustive small scope',
+         'proof: for all trajectories and windows, the single-pass in-place kernel equals the published reference rule, results have all maximal runs >= tau, '
+         'the iterative last-frame shortcut is sound so iterative mode = successive plain stages 2..tau, coring is idempotent, errors iff no window, '
+         'tau=1/tau<=0 wrapper behaviour; tie: exhaustive 3-label enumeration (quick: length <= 6, thorough: length <= 10, tau <= 5, both modes) and random '
+         'ragged multi-trajectory sets, JIT on and off.',
+         COMMON_NOTE + 'Two genuine defects found by this check were repaired by fix: commits (see KNOWN_FINDINGS.json).',
+         'DESIGN.md section 6 C05'),
  'C15': ('Coq proof (substitution/rank theorems over all lists) + differential correspondence model vs code',
          'proof: shift_data = simultaneous substitution, container structure, rename_by_index = rank in sorted distinct labels, '
          'uniqueness of the sorted distinct list and soundness of the rename_by_population oracle are Coq theorems about the model '
